@@ -479,6 +479,54 @@ exec_surveyor(const vcase *vc)
 				C.live = false;
 				C.q.clear();
 			}
+		} else if (n == "crowd") { // crowd ctx n : n receives pending on one live survey; at its deadline every one of them must fail with NNG_ETIMEDOUT
+			int cn = a1 < 2 ? 2 : (a1 > 140 ? 140 : a1);
+			uint64_t t0 = vs_now();
+			if (C.rcv_pending || C.fuzzy || !C.q.empty() || alive(C, t0) != 1 || t0 + 8 >= C.dl_lo)
+				continue;
+			std::vector<AioBox> boxes((size_t) cn);
+			for (auto &b : boxes) {
+				H_OK(nng_aio_alloc(&b.aio, box_cb, &b));
+				nng_aio_set_timeout(b.aio, NNG_DURATION_INFINITE);
+				if (k == 0)
+					nng_socket_recv(W.s, b.aio);
+				else
+					nng_ctx_recv(C.ctx, b.aio);
+			}
+			vs_settle();
+			uint64_t now = vs_now();
+			if (now < C.dl_hi + 6)
+				vs_sleep((int) (C.dl_hi + 6 - now));
+			vs_settle();
+			int pending = 0, wrong = 0, early = 0;
+			for (auto &b : boxes) {
+				if (!b.done)
+					pending++;
+				else if (nng_aio_result(b.aio) != NNG_ETIMEDOUT) {
+					wrong++;
+					if (nng_aio_result(b.aio) == 0)
+						nng_msg_free(nng_aio_get_msg(b.aio));
+				} else if (b.done_at + 1 < C.dl_lo)
+					early++;
+			}
+			vr_trace("crowd of %d: pending %d wrong %d early %d", cn, pending, wrong, early);
+			int rv_first = boxes[0].done ? nng_aio_result(boxes[0].aio) : -1;
+			for (auto &b : boxes) {
+				if (!b.done) {
+					nng_aio_cancel(b.aio);
+					nng_aio_wait(b.aio);
+				}
+				nng_aio_free(b.aio);
+			}
+			// (a second concurrent receive refused with NNG_ESTATE is the other legal design: then exactly the first one waits)
+			VR_CHECK(pending == 0, "C07:recv-survives-deadline", "%d of %d receives pending on one survey were still pending %d ms after its deadline", pending, cn, 6);
+			VR_CHECK(wrong == 0 || rv_first == NNG_ETIMEDOUT, "C07:recv-survives-deadline", "%d of %d receives pending at the deadline ended with something else than NNG_ETIMEDOUT (first: %d)", wrong, cn, rv_first);
+			VR_CHECK(early == 0, "C07:early-timeout", "%d of %d receives timed out before the survey deadline", early, cn);
+			C.live = false;
+			C.q.clear();
+			if (cn > 100)
+				vr_tag("crowd_over_100_at_deadline");
+			vr_tag("crowd_at_deadline");
 		} else if (n == "cancel") {
 			if (!C.rcv_pending)
 				continue;
@@ -552,8 +600,11 @@ genSurvOp()
 	return gen::exec([]() {
 		std::ostringstream o;
 		int k = *gen::weightedElement<int>({{4, 0}, {3, 1}, {2, 2}});
-		int t = *gen::weightedElement<int>({{8, 0}, {12, 1}, {8, 2}, {7, 3}, {2, 4}, {6, 5}, {2, 6}, {1, 7}, {2, 8}, {4, 9}, {1, 10}});
+		int t = *gen::weightedElement<int>({{8, 0}, {12, 1}, {8, 2}, {7, 3}, {2, 4}, {6, 5}, {2, 6}, {1, 7}, {2, 8}, {4, 9}, {1, 10}, {1, 11}});
 		switch (t) {
+		case 11: // many receives pending on one survey when its deadline arrives (more than the expire thread handles in one batch)
+			o << "stime " << k << " " << *gen::element(20, 50) << "\nsurvey " << k << "\ncrowd " << k << " " << *gen::element(3, 60, 101, 120, 130);
+			break;
 		case 10: // the queue of unread responses fills up (exactly, or beyond), then a new survey: only its own response may come out
 			o << "stime " << k << " 500\nsurvey " << k << "\nresp " << *pbt::range<int>(0, 1) << " 7 " << k << "\nsurvey " << k << "\nresp " << *pbt::range<int>(0, 1) << " 0 " << k << "\nrecv " << k << "\nrecv " << k;
 			break;
